@@ -53,7 +53,7 @@ def run(ctx):
     ctx.rule = ("exhaustive over {service ok/not} x {interface version ok/not} x {method known/unknown} x all 10 message types x all 11 return "
                 "codes x 3 handler outcomes x {unicast, multicast} with random ids/payloads on top; each case goes through "
                 "SimpleService.message_received with a recording transport; the reply is compared with the model and judged by the extracted "
-                "spec_reply (the property's table); sequences through ONE service object from seven senders (IPv4 / IPv6, same host other port, link-local addresses differing in scope id or flow label); the same message to several differently configured services of one process in turn; non-trivial = distinct (message, channel, handler outcome)")
+                "spec_reply (the property's table); sequences through ONE service object from seven senders (IPv4 / IPv6, same host other port, link-local addresses differing in scope id or flow label); the same message to several differently configured services of one process in turn; bursts of 12-40 mostly faulty messages of one sender; non-trivial = distinct (message, channel, handler outcome)")
     ctx.exhaustive = True
     ctx.assumptions = ["the handler is a function of the scenario (returns bytes / returns None / raises MalformedMessageError)"]
     addr = ("2001:db8::2", 30501, 0, 0)
@@ -137,6 +137,34 @@ def run(ctx):
             impl.append([reply, bool(called)])
             descr.append(("seq", k, step))
             ctx.case(("seq", k, step, sexp.dumps(arg), repr(sender)), kind="sender-sequence")
+    # a BURST of faulty messages from one sender to one service object: every one of them gets its error reply
+    r4 = random.Random(ctx.seed * 7919 + 216)
+    for k in range(10 if quick else 300):
+        outcome = [r4.choice([0, 2]), gen.payload(r4, maxlen=8)] if r4.random() < 0.5 else [2]
+        outcome = [0, outcome[1]] if outcome[0] == 0 else [2]
+        svc, called = make_service(outcome)
+        sender = r4.choice(senders)
+        for step in range(r4.randint(12, 40)):
+            fault = r4.choice(["service", "version", "method", "type", "code", "none"])
+            msg = H.SOMEIPHeader(
+                service_id=SVC + 1 if fault == "service" else SVC, method_id=2 if fault == "method" else r4.choice(METHODS),
+                client_id=gen.id16(r4), session_id=gen.id16(r4), interface_version=VER + 1 if fault == "version" else VER,
+                message_type=H.SOMEIPMessageType.NOTIFICATION if fault == "type" else H.SOMEIPMessageType.REQUEST,
+                return_code=H.SOMEIPReturnCode.E_NOT_OK if fault == "code" else H.SOMEIPReturnCode.E_OK, payload=gen.payload(r4, maxlen=8))
+            before = len(svc.transport.sent)
+            del called[:]
+            with warnings.catch_warnings():
+                warnings.simplefilter("ignore")
+                svc.message_received(msg, sender, False)
+            sent = svc.transport.sent[before:]
+            arg = [SVC, VER, METHODS, conv.s_msg(msg), False, outcome]
+            if len(sent) > 1 or (sent and sent[0][1] != sender):
+                ctx.violation("burst of faulty messages: more than one reply or a reply to someone else", dict(arg=sexp.dumps(arg), replies=len(sent), step=step))
+            reply = [conv.s_msg(H.SOMEIPHeader.parse(sent[0][0])[0])] if sent else None
+            cases.append((1601, arg))
+            impl.append([reply, bool(called)])
+            descr.append(("burst", k, step))
+            ctx.case(("burst", k, step, sexp.dumps(arg)), kind="faulty-burst")
     # SEVERAL differently configured services in one process (other service id / major version / method set): the same
     # message reaches one after the other; each answers by ITS OWN configuration, whatever another one decided before
     r3 = random.Random(ctx.seed * 7919 + 116)
